@@ -231,7 +231,10 @@ class Interp:
             if i == len(nodes):
                 return f(vals, st)
             out = []
-            for ctl, v, s in self.eval(nodes[i], st):
+            rs = self.eval(nodes[i], st)
+            if len(rs) > 1:
+                rs = self.dedupe(rs)
+            for ctl, v, s in rs:
                 if ctl != OK:
                     out.append((ctl, v, s))
                 else:
@@ -241,6 +244,8 @@ class Interp:
 
     def then(self, results, f):
         out = []
+        if len(results) > 1:
+            results = self.dedupe(results)
         for ctl, v, s in results:
             if ctl != OK:
                 out.append((ctl, v, s))
@@ -852,6 +857,21 @@ class Interp:
             return ("struct", v[1], tuple((k, self.deep_deref(st, x, depth)) for k, x in v[2]))
         return v
 
+    def deref_roots(self, st, v, roots):
+        if not isinstance(v, tuple) or not v:
+            return v
+        if v[0] == "ref":
+            if v[1][0] in roots:
+                return self.deref_roots(st, self.read(st, v[1]), roots)
+            return v
+        if v[0] == "enum":
+            return ("enum", v[1], tuple(self.deref_roots(st, x, roots) for x in v[2]))
+        if v[0] == "tuple":
+            return ("tuple", tuple(self.deref_roots(st, x, roots) for x in v[1]))
+        if v[0] == "struct":
+            return ("struct", v[1], tuple((k, self.deref_roots(st, x, roots)) for k, x in v[2]))
+        return v
+
     def deref_val(self, st, v):
         while v[0] == "ref":
             v = self.read(st, v[1])
@@ -974,8 +994,20 @@ class Interp:
                     nxt.extend(self.match(p, a, s2))
                 res = nxt
             out = []
+            pids = set()
+            for p in c["params"]:
+                stack = [p]
+                while stack:
+                    q = stack.pop()
+                    if isinstance(q, dict):
+                        if q.get("p") == "Bind":
+                            pids.add(("L", fv[2], q["id"]))
+                        stack.extend(x for x in q.values() if isinstance(x, (dict, list)))
+                    elif isinstance(q, list):
+                        stack.extend(q)
             for ok, s2 in res:
                 for ctl, v, s3 in self.eval(c["body"], s2):
+                    v = self.deref_roots(s3, v, pids)
                     s4 = State(s3.store, s3.mon, saved)
                     if ctl == RET:
                         out.append((OK, v, s4))
@@ -1112,6 +1144,17 @@ class Interp:
             if v[0] == "enum" and v[1] == NONE:
                 return [(OK, args[1], st)]
             return [(OK, unk("unwrap_or"), st), (OK, args[1], st)]
+        if callee == "core::option::Option::<core::result::Result<T, E>>::transpose":
+            v = self.deref_val(st, args[0])
+            if v[0] == "enum" and v[1] == NONE:
+                return [(OK, ("enum", OKV, (none(),)), st)]
+            if v[0] == "enum" and v[1] == SOME:
+                inner = self.deref_val(st, v[2][0])
+                if inner[0] == "enum" and inner[1] == OKV:
+                    return [(OK, ("enum", OKV, (some(inner[2][0]),)), st)]
+                if inner[0] == "enum" and inner[1] == ERRV:
+                    return [(OK, inner, st)]
+            return [(OK, ("enum", OKV, (unk("transpose"),)), st), (OK, ("enum", ERRV, (unk("transpose"),)), st)]
         if callee == "core::option::Option::<T>::map_or":
             v = self.deref_val(st, args[0])
             if v[0] == "enum" and v[1] == NONE:
